@@ -3,7 +3,8 @@
 import glob, json, os, subprocess, sys
 from concurrent.futures import ThreadPoolExecutor
 V = os.path.dirname(os.path.dirname(os.path.abspath(__file__)))
-ids = sorted(json.load(open(p))["id"] for p in glob.glob(os.path.join(V, "conf", "C*.json")))
+claimed = set(c["property_id"] for c in json.load(open(os.path.join(V, "MANIFEST.json")))["checks"])
+ids = sorted(i for i in (json.load(open(p))["id"] for p in glob.glob(os.path.join(V, "conf", "C*.json"))) if i in claimed)
 def one(pid):
     env = dict(os.environ, VERIF_BUILD_ONLY="1")
     r = subprocess.run([os.path.join(V, "check"), pid], env=env, capture_output=True, text=True)
